@@ -140,7 +140,7 @@ def auto_theory_covariance(ctx):
         m = int(rng.integers(3, 7))
         r = float(rng.uniform(0.08, 0.15))
         # largest pair separation = f * 30 r with f just below / just above 1, or well inside (box diagonal > 30 r > separation)
-        f = float(rng.choice([rng.uniform(0.6, 0.999), rng.uniform(0.9, 0.999), rng.uniform(1.001, 1.2)]))
+        f = float([rng.uniform(0.6, 0.999), rng.uniform(0.9, 0.999), rng.uniform(1.001, 1.2)][i % 3])
         while True:
             pts = rng.normal(size=(m, 3)) * [1.0, 1.0, 0.3]
             dmax = max(np.linalg.norm(pts[a] - pts[b]) for a in range(m) for b in range(a + 1, m))
